@@ -239,7 +239,8 @@ theorem MCtx.static {P : Params} {n0 : Nat} {ids0 : List Nat} {s o : Sketch} {b 
 theorem mergeFinish_spec (P : Params) (n0 : Nat) (ids0 : List Nat) (s o : Sketch) (b : Nat) (h hA h' : Heap)
     (sa : Sketch) (ba : Nat) (c : List Bool) (byMove : Bool) (finalN : Nat) (ctx : MCtx P n0 ids0 s o b h)
     (hAid : hA.ids = ids0) (hAnx : hA.next = n0) (ss : SSide (foot (owned s ++ owned o) n0) hA h' s sa b ba)
-    (io' : Inv P h' o) (uo' : byMove = false → Usable P h' o) (hfn : finalN ≠ 0) :
+    (io' : Inv P h' o) (uo' : byMove = false → Usable P h' o) (hfn : finalN ≠ 0)
+    (hpw : sumSampleWeights sa.numLevels sa.levels = finalN → (sa.numLevels = 1 ∨ 2 ^ (sa.numLevels - 1) ≤ finalN)) :
     SafeF (foot (owned s ++ owned o) n0) h' (mergeFinish o finalN (sa, c) h')
       (fun r h'' => Usable P h'' r.1 ∧ Inv P h'' o ∧ (byMove = false → Usable P h'' o) ∧
         (∀ x, x ∈ owned r.1 → x ∉ owned o) ∧ Owns h'' ids0 (owned s ++ owned o) (owned r.1 ++ owned o) n0) := by
@@ -302,6 +303,8 @@ theorem mergeFinish_spec (P : Params) (n0 : Nat) (ids0 : List Nat) (s o : Sketch
     · intro e; exact absurd e hfn
     · intro _; simp only; rw [sm.self, self4.st, self4.st]; exact mm
     · intro _; exact hret
+    · simp only; omega
+    · exact hpw (by omega)
   · intro x hx hxo
     simp only [mem_owned, reduceCtorEq, or_false] at hx
     rw [sm.self, hba] at hx
